@@ -231,6 +231,40 @@ pub trait Sampler: Send + Sync {
     fn to_json_value(&self) -> Result<serde_json::Value, String>;
 }
 
+/// calls of other public functions of the crate, made right before a sample call on
+/// the same thread (results ignored; panics contained)
+pub fn interfere(s: &dyn Sampler, point: &[u64], pairs: &[(u64, u64)]) {
+    use momtrop::gamma::inverse_gamma_lr;
+    let dod = match s.getters() {
+        Outcome::Getters(v) if v.len() > 1 => f64::from_bits(v[1]),
+        _ => return,
+    };
+    let _ = catch_unwind(AssertUnwindSafe(|| {
+        for &b in point {
+            let p = f64::from_bits(b);
+            let _ = inverse_gamma_lr(&dod, &p, 0, &5.0);
+            let _ = inverse_gamma_lr(&SimF(dod), &SimF(p), 1, &SimF(1e9));
+        }
+        // last (a single-slot "most recent" memo keeps only these): the very
+        // arguments the sample is about to pass, first pair of the trace last
+        for &(a, p) in pairs.iter().rev() {
+            let _ = inverse_gamma_lr(&f64::from_bits(a), &f64::from_bits(p), 1, &1e9);
+            let _ = inverse_gamma_lr(&f64::from_bits(a), &f64::from_bits(p), 0, &5.0);
+        }
+        // the matrix routine on an unrelated, ill-conditioned matrix, both verdicts
+        let mut a = momtrop::matrix::SquareMatrix::new_zeros_from_num(&0.0f64, 3);
+        for i in 0..3 {
+            for j in 0..3 {
+                a[(i, j)] = 1.0 / (i + j + 1) as f64 + if i == j { 1e-13 } else { 0.0 };
+            }
+        }
+        for tol in [None, Some(1e-30), Some(1e3)] {
+            let st = momtrop::TropicalSamplingSettings { matrix_stability_test: tol, print_debug_info: false, return_metadata: false, ..Default::default() };
+            let _ = a.decompose_for_tropical(&st);
+        }
+    }));
+}
+
 /// a durable form to be restored into an existing sampler
 pub enum InPlaceForm<'a> {
     Tree(&'a Tree, ReadBehaviour),
